@@ -3,10 +3,16 @@
 From Coq Require Import List NArith Bool.
 Import ListNotations.
 Require Import Aurora.Base.Corr.
-Require Export Aurora.C18.KV Aurora.C19.Model.
+Require Export Aurora.C18.KV Aurora.C19.Model Aurora.C19.Conc.
 Local Open Scope N_scope.
 
-Inductive case := Case (h : list op) (o : list obs).
+Inductive case :=
+| Case (h : list op) (o : list obs)
+(* a bulk reader (thread 0: snapshot program over the complete keys [ks]) against a writer
+   (thread 1: one atomic commit per element of [wss]) under the schedule the harness forced,
+   after the sequential set-up history [pre]; observed: what Fill / HasMulti returned *)
+| CaseFill (pre : list op) (ks : list bytes) (wss : list (list bwrite)) (sched : list nat) (vals : list bytes) (ok : bool)
+| CaseHasMulti (pre : list op) (ks : list bytes) (wss : list (list bwrite)) (sched : list nat) (have : list bool).
 
 Definition kv_eqb : kv -> kv -> bool := pair_eqb bytes_eqb bytes_eqb.
 Definition iter_res_eqb (a b : iter_res) : bool :=
@@ -28,8 +34,34 @@ Definition obs_eqb (a b : obs) : bool :=
   | _, _ => false
   end.
 
-Definition model_obs (c : case) : list obs := match c with Case h _ => snd (run init_state h) end.
-Definition seen_obs (c : case) : list obs := match c with Case _ o => o end.
+(** result list of the reader after the schedule; [None] when it has not finished *)
+Definition conc_res (pre : list op) (ks : list bytes) (wss : list (list bwrite)) (sched : list nat) : option (list (option bytes)) :=
+  let db0 := st_db (fst (run init_state pre)) in
+  match nth_error (snd (run_sched (db0, [snapshot_reader ks; writer wss]) sched)) 0 with
+  | Some t => match prog t with [] => Some (res t) | _ => None end
+  | None => None
+  end.
+
+Definition model_obs (c : case) : list obs :=
+  match c with
+  | Case h _ => snd (run init_state h)
+  | CaseFill pre ks wss sched _ _ =>
+      match conc_res pre ks wss sched with
+      | Some r => let '(vs, ok) := fill_result r in [BFill vs ok]
+      | None => [BStuck]
+      end
+  | CaseHasMulti pre ks wss sched _ =>
+      match conc_res pre ks wss sched with
+      | Some r => [BBools (hasmulti_result r)]
+      | None => [BStuck]
+      end
+  end.
+Definition seen_obs (c : case) : list obs :=
+  match c with
+  | Case _ o => o
+  | CaseFill _ _ _ _ vals ok => [BFill vals ok]
+  | CaseHasMulti _ _ _ _ have => [BBools have]
+  end.
 Definition check_case (c : case) : bool := list_eqb obs_eqb (model_obs c) (seen_obs c).
 
 Fixpoint first_diff (i : nat) (a b : list obs) : option (nat * option obs * option obs) :=
